@@ -133,6 +133,7 @@ func wGenFaultInput(rnd *Rand) wInput {
 		in.FaultAt = 0
 	}
 	in.Partial = rnd.coin(1, 2)
+	in.Transient = rnd.coin(1, 3)
 	if !in.Bam && rnd.coin(1, 5) {
 		// compression failures instead of (or, rarely, together with) an I/O fault: a gzip header so large that
 		// blocks overflow 64 KiB (all of them, or only the bigger ones), or a header gzip refuses
@@ -149,6 +150,7 @@ func wGenFaultInput(rnd *Rand) wInput {
 		if rnd.coin(5, 6) {
 			in.FaultAt = -1
 			in.Partial = false
+			in.Transient = false
 		}
 	}
 	return in
